@@ -35,7 +35,8 @@ man = {
     'checks': checks,
     'not_applicable': na,
     'notes': 'Static analysis only: nothing from /repo is imported or executed by any check. Exit 0 holds (KNOWN-FINDING / NOTE lines allowed), '
-             'exit 1 with VIOLATION lines, exit 2 with ANALYSIS-ERROR when an anchor vanished or a construct is outside the modelled subset. '
+             'exit 1 with VIOLATION lines, exit 2 with ANALYSIS-ERROR only for parse or internal errors. A clause whose code the rule does not read (unrecognised shape, '
+             'vanished private anchor, construct outside the modelled subset) is printed as UNDECIDED and the verdict line reads HOLDS-ON-DECIDED-CLAUSES (exit 0). '
              'Genuine defects repaired in /repo as fix: commits and the one recorded finding are listed in known_findings.json.',
 }
 with open(os.path.join(os.path.dirname(os.path.dirname(os.path.abspath(__file__))), 'MANIFEST.json'), 'w') as fh:
